@@ -360,6 +360,35 @@ theorem buildProxyHint_eq_nil (hs : List Str) : buildProxyHint hs = [] ↔ hs = 
     subst h
     rfl
 
+theorem infix_join (sep : Str) (x : Str) : (names : List Str) → x ∈ names → x <:+: join sep names
+  | [], h => by cases h
+  | [y], h => by
+    have : x = y := by simpa using h
+    subst this
+    exact List.infix_refl _
+  | y :: z :: r, h => by
+    rw [join]
+    rcases List.mem_cons.1 h with rfl | h'
+    · exact ((List.prefix_append x sep).trans (List.prefix_append _ _)).isInfix
+    · have ih := infix_join sep x (z :: r) h'
+      exact ih.trans (List.suffix_append _ _).isInfix
+
+/-- the note names every configured header -/
+theorem infix_buildProxyHint (hs : List Str) (x : Str) (hx : x ∈ hs) : x <:+: buildProxyHint hs := by
+  unfold buildProxyHint
+  have hm : x ∈ dedup hs := (mem_dedup x hs).2 hx
+  have hne : (dedup hs).isEmpty = false := by
+    cases hd : dedup hs with
+    | nil => rw [hd] at hm; cases hm
+    | cons a b => rfl
+  simp only [hne, Bool.false_eq_true, ↓reduceIte]
+  have hseg : ∃ a t, Gen.C21.hintSegments = .lit a :: .listed :: t := ⟨_, _, rfl⟩
+  obtain ⟨a, t, ht⟩ := hseg
+  rw [ht]
+  simp only [List.flatMap_cons]
+  have h1 := infix_join Gen.C21.hintListSep.toList x (dedup hs) hm
+  exact h1.trans ((List.prefix_append _ _).isInfix.trans (List.suffix_append _ _).isInfix)
+
 theorem mem_headerNames (c : Config) (x : Str) :
     x ∈ c.headerNames ↔ x ∈ c.declared ∨ (∃ a, c.auth = some a ∧ x ∈ declaredIn a) ∨
       (c.proofRequired = true ∧ x = Gen.C21.proofHeader.toList) := by
@@ -764,6 +793,10 @@ theorem C21_hint_iff (c : Config) (ρ : Env) (acc : Option Str) (u : Unauthorize
   rw [← key]
   cases c.hint.isEmpty <;> simp
 
+/-- §5.2: the note names every header the configuration depends on -/
+theorem C21_hint_names (c : Config) (x : Str) (hx : x ∈ c.headerNames) : x <:+: c.hint :=
+  Aux.infix_buildProxyHint c.headerNames x hx
+
 /-- composition helpers carry declarations through, at any depth; the built-in proof gate declares its header only in
     `require` mode, the built-in mTLS authenticators declare the header they read -/
 theorem C21_declarations (x : Str) (a : Auth) :
@@ -901,7 +934,7 @@ theorem C21_client (E : ClientEnv) (content : List UInt8) :
     (∀ e, E.loads content = .raised e → ∃ d, parseUnauthorized E content = .authErr .unauthorized d []) ∧
     (E.loads content = .nonDict → ∃ d, parseUnauthorized E content = .authErr .unauthorized d []) := by
   refine ⟨?_, ?_, ?_, ?_⟩
-  · unfold parseUnauthorized
+  · unfold parseUnauthorized parseWith
     cases hl : E.loads content with
     | raised e =>
       simp only [Aux.suppressed_all e, if_true]
@@ -912,7 +945,7 @@ theorem C21_client (E : ClientEnv) (content : List UInt8) :
       exact ⟨_, _, _, hd, Aux.value_closed _⟩
     | dict r d h => exact ⟨_, _, _, rfl, Aux.value_closed _⟩
   · intro rf df hf hl
-    unfold parseUnauthorized
+    unfold parseUnauthorized parseWith
     rw [hl]
     constructor
     · intro r hr
@@ -922,14 +955,39 @@ theorem C21_client (E : ClientEnv) (content : List UInt8) :
       | none => simp only [Aux.ofName_consts.2.2.2.2.2.2.2.2.2.1, ho]
       | some r => exact absurd (Aux.ofValue_some _ _ ho).symm (hn r)
   · intro e hl
-    unfold parseUnauthorized
+    unfold parseUnauthorized parseWith
     rw [hl]
     simp only [Aux.suppressed_all e, if_true]
     exact Aux.nonEnvelope_authErr _
   · intro hl
-    unfold parseUnauthorized
+    unfold parseUnauthorized parseWith
     rw [hl]
     exact Aux.nonEnvelope_authErr _
+
+/-- totality is exactly "the guard around `json.loads` names a base class of every exception it can raise":
+    with any other `suppress(...)` list some body makes another exception escape -/
+theorem C21_client_total_iff (sup : List String) :
+    (∀ (E : ClientEnv) (content : List UInt8), ∃ r d h, parseWith sup E content = .authErr r d h) ↔
+    ∀ e : LoadsExc, sup.any e.isInstance = true := by
+  constructor
+  · intro h e
+    obtain ⟨r, d, hh, hp⟩ := h ⟨fun _ => .raised e, fun _ => []⟩ []
+    unfold parseWith at hp
+    simp only at hp
+    cases hs : sup.any e.isInstance with
+    | true => rfl
+    | false => rw [hs] at hp; simp at hp
+  · intro h E content
+    unfold parseWith
+    cases hl : E.loads content with
+    | raised e =>
+      simp only [h e, if_true]
+      obtain ⟨d, hd⟩ := Aux.nonEnvelope_authErr (E.decode content)
+      exact ⟨_, _, _, hd⟩
+    | nonDict =>
+      obtain ⟨d, hd⟩ := Aux.nonEnvelope_authErr (E.decode content)
+      exact ⟨_, _, _, hd⟩
+    | dict r d h' => exact ⟨_, _, _, rfl⟩
 
 /-! ## Non-vacuity -/
 
